@@ -249,7 +249,7 @@ def run(ck):
 
     ck.level = "model_checking"
     ck.assumptions += [
-        "objects: unyt_quantity (90.0), unyt_array ([0.5, 2.0, 90.0]) and Unit over 21 unit names; registries: the default registry, and custom registries built per case with added (foo), prefixable (pfoo), offset (ofoo), angle (afoo), logarithmic (lfoo) symbols, a modified default symbol (mile), their own 'code' unit system, and (customcgs) unit_system='cgs'",
+        "objects: unyt_quantity (90.0), unyt_array ([0.5, 2.0, 90.0]) and Unit over 21 unit names; registries: the default registry, and custom registries built per case with added (foo), prefixable (pfoo), offset (ofoo), angle (afoo), logarithmic (lfoo) symbols, a modified default symbol (mile), their own 'code' unit system, (customcgs) unit_system='cgs', and (customrm) built-in symbols removed (t, rad) or removed and re-added with another dimension (bar)",
         "pre-persist history chosen by TLC: registry id / code unit system computed after (idlast) or before (idfirst) the first use of prefixed symbols; unit built from the spelling str(unit) (string memo warm) or from another spelling (cold)",
         "several objects: two originals in two registries with the same user symbols (stock / re-valued mile / added foo), restores by pickle, reload of the same bytes, deepcopy, json, and registry edits of any object in between, every order up to 3 (quick) / 4 (thorough) steps",
         "every follow-up pair starts from empty process-wide lru memos; the baseline is the follow-up on the pristine original before anything was persisted",
